@@ -199,7 +199,9 @@ def rule_matrix_builders(ctx: Ctx):
                           bad_detail="positions handed to the ordinal dissimilarity are not aligned with the labels", key="numerical-align")
             continue
         n_builders += 1
-        args = call.args
+        pinit = parent.methods["__init__"]
+        ba_ = bound_args(call, pinit) or {}
+        args = [ba_[p_] for p_ in pinit.params[1:3] if p_ in ba_]        # (categories, matrix) by position or by keyword
         if len(args) < 2:
             ctx.undecided("R-C04-5", init, call, "super().__init__(categories, matrix, ...) expected")
             continue
